@@ -193,6 +193,19 @@ def run(c):
             repc = "nonascii" if ord(bad) > 127 else ("control" if ord(bad) < 32 else ("urlsafe" if bad in "-_" else "punct"))
             cases.append(core.Case(cid, "b64.decode", [t2.encode("utf-8")]))
             meta[cid] = (t2, posc, repc, bad)
+    # the same for the ways mail and PEM tools wrap Base64: a separator after every w characters (w = 4 .. 80)
+    for L in (57, 114, 120, 171, 300):
+        text = base64.b64encode(rng.bytes(L)).decode()
+        for sep in ("\r\n", "\n", "\r", " ", "\t"):
+            for w in (4, 16, 60, 64, 72, 76, 80):
+                if w >= len(text):
+                    continue
+                t2 = sep.join(text[k:k + w] for k in range(0, len(text), w))
+                for variant in (t2, t2 + sep):
+                    cid = "c%d" % i
+                    i += 1
+                    cases.append(core.Case(cid, "b64.decode", [variant.encode("utf-8")]))
+                    meta[cid] = (variant, "wrapped-every-%d" % w, "control" if sep.strip() == "" and sep != " " else "punct", sep)
     for lane in lanes:
         obs = core.run_cases(cases, lane=lane)
         for cs in cases:
